@@ -210,11 +210,20 @@ def precondition_decidable(m, hx, i):
         if 0xF2 in i.prefix and int(z.arg) == 1:
             break
 
-def run_real(ops):
+def _backing_read(machine, a):
+    # client-supplied memory back end (func_read seam): unknown constant-address memory is initial memory
+    a.is_term = True
+    return a
+
+def _backing_write(machine, dst, src, pool_out):
+    # func_write seam: a store to a constant address goes where the machine itself would put it
+    pool_out[dst] = src
+
+def run_real(ops, backing=False):
     """Execute the history on the real machine.  Returns (machine, trace) where
     trace[k] describes what the reference must execute for op k."""
     s = sut()
-    m = s.H.x86_machine()
+    m = s.H.x86_machine(_backing_read, _backing_write) if backing else s.H.x86_machine()
     trace = []
     reuse_cache = {}
     for op in ops:
@@ -369,12 +378,12 @@ def probe_plan(refs, vals, dense):
             plan.add((region, x))
     return sorted(plan)
 
-def check_history(ops, vals, dense=True, compare_flags=False):
+def check_history(ops, vals, dense=True, compare_flags=False, backing=False):
     """One simulated history under several valuations.  Returns a dict:
     status 'ok' | 'discard' | 'violation'."""
     s = sut()
     try:
-        m, trace, early = run_real(ops)
+        m, trace, early = run_real(ops, backing)
     except Discard as d:
         return {'status': 'discard', 'reason': str(d)}
     if early == 'rep-raises':
@@ -751,7 +760,7 @@ def gen_history(rng):
     else:
         for _ in range(n):
             ops.append({'op': 'insn', 'line': gen_arith_line(rng) if rng.random() < 0.7 else gen_move_line(rng)})
-    return {'mode': mode, 'base': base, 'nsym': max(nsym, 2)}, ops
+    return {'mode': mode, 'base': base, 'nsym': max(nsym, 2), 'backing': base == 'const' and rng.random() < 0.3}, ops
 
 # ------------------------------------------------------------ classification
 
